@@ -1,5 +1,5 @@
 SPECIFICATION Spec
 CONSTANTS Callers = {1, 2}  MaxGen = 3  MaxCalls = 4  MaxKill = 2  ReconnectWhenNil = TRUE  ClosedCheckLocked = TRUE
-  DropOnlyOwn = TRUE  CloseDropped = TRUE  CheckClosedFlag = TRUE  LimitIsRecoverable = FALSE  GenHist = FALSE
+  DropOnlyOwn = FALSE  CloseDropped = TRUE  CheckClosedFlag = TRUE  LimitIsRecoverable = TRUE  GenHist = FALSE
 INVARIANT NoViolation
 CHECK_DEADLOCK FALSE
